@@ -348,6 +348,7 @@ def run_impl(case):
 
     tmp = tempfile.mkdtemp(prefix="verif_c43_", dir="/tmp")
     steps, req_ops, law_bad, notes = [], [], [], []
+    d = None
     try:
         d = PersistentDict(tmp)
         for op in case["ops"]:
@@ -408,9 +409,10 @@ def run_impl(case):
                 got = canon(PersistentDict._load(PersistentDict._dump(decode(v))))
                 if got != normalise(v):
                     law_bad.append((kind(v), v, got))
-        d._finalizer.detach()
-        del d
     finally:
+        if d is not None:
+            d._finalizer.detach()  # the directory is about to be removed
+        d = None
         shutil.rmtree(tmp, ignore_errors=True)
     obs = {"steps": [{k: s[k] for k in s if k != "visible"} for s in steps], "final": final}
     return obs, {"ops": req_ops}, {"visible": [s["visible"] for s in steps], "law_bad": law_bad, "notes": notes}
